@@ -145,8 +145,8 @@ for sid,(prop,needs,note) in sorted(NEEDS.items()):
     det=[]
     f=f'{d}/detected.txt'
     if os.path.exists(f):
-        det=[l.split()[0] for l in open(f) if 'VIOLATION' in l]
-        mach=[l.split()[0] for l in open(f) if 'MACHINERY' in l]
+        det=[l.split()[0] for l in open(f, errors='replace') if 'VIOLATION' in l]
+        mach=[l.split()[0] for l in open(f, errors='replace') if 'MACHINERY' in l]
     else: mach=[]
     meta={"seed":sid,"breaks_property":prop,"needs_to_manifest":needs,
           "source":"independent sub-agent given only the property text and a scratch worktree of /repo",
